@@ -70,3 +70,131 @@ Proof.
   destruct (str_iter _ input 0 Ground) as [[[ps' ?] ?]|] eqn:Hit; [|discriminate].
   inversion H; subst. eapply str_iter_pieces; eauto.
 Qed.
+
+(* ---- C04: text pieces are valid UTF-8 ----------------------------------------- *)
+
+Fixpoint vrun (vu : option ustate) (bs : list N) : option (option ustate) :=
+  match bs with
+  | [] => Some vu
+  | b :: rest => match vnext vu b with Some vu' => vrun vu' rest | None => None end
+  end.
+
+Lemma valid_from_vrun vu bs : valid_from vu bs = true <-> vrun vu bs = Some None.
+Proof.
+  revert vu. induction bs as [|b bs IH]; intros vu.
+  - cbn. destruct vu; split; intros H; try discriminate; try reflexivity.
+  - rewrite valid_from_cons. cbn [vrun]. destruct (vnext vu b) as [vu'|]; [apply IH|].
+    split; discriminate.
+Qed.
+
+Lemma vrun_app a b vu : vrun vu (a ++ b) = match vrun vu a with Some vu' => vrun vu' b | None => None end.
+Proof.
+  revert vu. induction a as [|x a IH]; intros vu; [reflexivity|].
+  cbn [app vrun]. destruct (vnext vu x); [apply IH|reflexivity].
+Qed.
+
+(* a byte that is neither a continuation byte nor invalid can only follow a complete character *)
+Lemma vnext_boundary vu b vu' :
+  vnext vu b = Some vu' -> is_utf8_continuation b = false -> vu = None.
+Proof.
+  intros H Hc. destruct vu as [u|]; [|reflexivity]. cbn [vnext] in H.
+  assert (Hnb : utf8_cont u b <> UBad) by (destruct (utf8_cont u b); congruence).
+  destruct (utf8_cont_range u b Hnb) as (Hc' & _). congruence.
+Qed.
+
+(* the bytes a take phase returns: the first is printable (hence not a
+   continuation byte) and what follows the run is not a continuation byte *)
+Lemma ns_take_ends_clean : forall bs st t r,
+  ns_take bs st = Some (t, r) -> starts_clean r.
+Proof.
+  induction bs as [|b bs IH]; intros st t r H; cbn [ns_take] in H.
+  - inversion H; subst. exact I.
+  - destruct (state_change st b) as [[ns a]|]; [|discriminate].
+    destruct (is_printable_bytes a b || is_utf8_continuation b) eqn:Hk; cbn [negb] in H.
+    + destruct (ns_take bs st) as [[t1 r1]|] eqn:Ht; [|discriminate]. inversion H; subst. eapply IH; eauto.
+    + inversion H; subst. cbn. apply orb_false_iff in Hk. tauto.
+Qed.
+
+Definition printable_not_cont (s : state) (b : N) : bool :=
+  match state_change s b with
+  | Some (_, a) => if is_printable_bytes a b then negb (is_utf8_continuation b) else true
+  | None => false
+  end.
+
+Lemma printable_not_cont_all :
+  forallb (fun s => forallb (printable_not_cont s) all_bytes) all_states = true.
+Proof. vm_compute. reflexivity. Qed.
+
+Lemma ns_skip_stops_clean : forall bs st bs1 st1,
+  bytes_ok bs -> ns_skip bs st = Some (bs1, st1) -> starts_clean bs1.
+Proof.
+  induction bs as [|b bs IH]; intros st bs1 st1 Hok H; cbn [ns_skip] in H.
+  - inversion H; subst. exact I.
+  - inversion Hok as [|? ? Hb Hok']; subst.
+    destruct (state_change st b) as [[ns a]|] eqn:Hsc; [|discriminate].
+    destruct (is_printable_bytes a b) eqn:Hp.
+    + inversion H; subst. cbn.
+      pose proof (forall_states_bytes _ printable_not_cont_all st b Hb) as Hq.
+      unfold printable_not_cont in Hq. rewrite Hsc, Hp in Hq. now apply negb_true_iff in Hq.
+    + eapply IH; eauto.
+Qed.
+
+(* a slice of valid UTF-8 that starts and ends at clean positions is valid UTF-8 *)
+Lemma valid_slice pre t r :
+  valid_utf8 (pre ++ t ++ r) = true -> starts_clean t -> starts_clean r -> t <> [] ->
+  valid_utf8 t = true.
+Proof.
+  unfold valid_utf8. intros Hv Ht Hr Hne. apply valid_from_vrun in Hv. apply valid_from_vrun.
+  rewrite vrun_app in Hv.
+  destruct (vrun None pre) as [v1|] eqn:H1; [|discriminate Hv].
+  destruct t as [|t0 t]; [contradiction|]. cbn [starts_clean] in Ht.
+  cbn [app vrun] in Hv |- *.
+  destruct (vnext v1 t0) as [v1'|] eqn:Hn; [|discriminate Hv].
+  pose proof (vnext_boundary _ _ _ Hn Ht) as Hv1. subst v1. rewrite Hn.
+  rewrite vrun_app in Hv.
+  destruct (vrun v1' t) as [v2|] eqn:H2; [|discriminate Hv].
+  destruct r as [|r0 r].
+  - cbn [vrun] in Hv. exact Hv.
+  - cbn [vrun starts_clean] in Hv, Hr. destruct (vnext v2 r0) as [v3|] eqn:Hn2; [|discriminate Hv].
+    now rewrite (vnext_boundary _ _ _ Hn2 Hr).
+Qed.
+
+Fixpoint pieces_valid (ps : list piece) : Prop :=
+  match ps with [] => True | p :: rest => valid_utf8 (p_bytes p) = true /\ pieces_valid rest end.
+
+Theorem str_iter_pieces_utf8 : forall fuel pre bs off st ps bs' st',
+  bytes_ok bs -> valid_utf8 (pre ++ bs) = true -> starts_clean bs ->
+  str_iter fuel bs off st = Some (ps, bs', st') -> pieces_valid ps.
+Proof.
+  induction fuel as [|fuel IH]; intros pre bs off st ps bs' st' Hok Hv Hc H; [discriminate|].
+  cbn [str_iter] in H. unfold next_str in H.
+  destruct (ns_skip bs st) as [[bs1 st1]|] eqn:Hsk; [|discriminate].
+  destruct (ns_take bs1 st1) as [[t bs2]|] eqn:Ht; [|discriminate].
+  destruct t as [|t0 t].
+  - inversion H; subst. exact I.
+  - destruct (str_iter fuel bs2 _ st1) as [[[ps2 bs3] st3]|] eqn:Hit; [|discriminate].
+    inversion H; subst. clear H. cbn [pieces_valid p_bytes].
+    destruct (ns_skip_suffix _ _ _ _ Hsk) as [pre1 Hpre1].
+    pose proof (ns_take_split _ _ _ _ Ht) as Hsp.
+    pose proof (ns_skip_stops_clean _ _ _ _ Hok Hsk) as Hc1.
+    pose proof (ns_take_ends_clean _ _ _ _ Ht) as Hc2.
+    assert (Hok2 : bytes_ok bs2).
+    { subst bs. rewrite Hsp in Hok. unfold bytes_ok in *. apply Forall_app in Hok as [_ Hok].
+      apply Forall_app in Hok. tauto. }
+    split.
+    + apply (valid_slice (pre ++ pre1) (t0 :: t) bs2); auto.
+      * subst bs. rewrite Hsp in Hv. rewrite <- app_assoc. exact Hv.
+      * rewrite Hsp in Hc1. exact Hc1.
+      * discriminate.
+    + eapply (IH (pre ++ pre1 ++ t0 :: t) bs2); [exact Hok2| |exact Hc2|exact Hit].
+      subst bs. rewrite Hsp in Hv. rewrite <- !app_assoc. cbn [app] in *. exact Hv.
+Qed.
+
+Theorem strip_str_pieces_utf8 : forall input ps,
+  bytes_ok input -> valid_utf8 input = true -> strip_str_pieces input = Some ps -> pieces_valid ps.
+Proof.
+  intros input ps Hok Hv H. unfold strip_str_pieces, strip_next_str in H.
+  destruct (str_iter _ input 0 Ground) as [[[ps' ?] ?]|] eqn:Hit; [|discriminate].
+  inversion H; subst.
+  apply (str_iter_pieces_utf8 _ [] input 0 Ground ps l s Hok Hv (valid_starts_clean _ Hv) Hit).
+Qed.
